@@ -11,6 +11,12 @@ Two parts, both exhaustive over a stated finite space and executed on the real
     handed out, in that order): None, every scalar, every pair in both orders,
     full lists ascending / descending / non-monotone; a reduced sub-product
     spells the same lists as numpy scalar / tuple / int64 / int32 array.
+    The DEGENERATE elements of the alphabet are members too: the EMPTY subset
+    (no label selected: nothing may be split, the map is empty) in every
+    container form -- [] / () / empty int64 / int32 array / an empty
+    boolean-mask selection from segment_img.labels --, all labels as a computed
+    selection and as the cached segment_img.labels object, and lists that name
+    a label twice (judged for the subset they denote; child numbers not judged).
     The parent alphabet has smooth
     blends, pixel-art parents (ties, plateau, tiny) and "spike" parents: a
     blend with a sub-npixels bright component (hot pixel, 2x2 hit, generic
@@ -64,12 +70,22 @@ RULE = ('(B) schedules: for every schedule scene x configuration x nproc in {2,3
         'recorded by the executor; a schedule is non-trivial when it is not the submission order and at least two of '
         'the tasks really deblend their parent; a configuration includes the labels= argument as an ORDERED list: None, '
         'every scalar label, ascending / descending / rotated (non-monotone) lists, as list and as int64 array (counter '
-        'schedules_non_ascending_labels_with_two_parents_split measures the cases where the caller order matters). '
+        'schedules_non_ascending_labels_with_two_parents_split measures the cases where the caller order matters), plus the '
+        'degenerate elements: empty list / empty int64 array (0 tasks: the pool is created and closed without a submit; '
+        'thorough also () / int32 / mask selection), a single label as 1-element container, [first, first] (two tasks for ONE '
+        'parent; thorough also [last, last] and [first, second, first]) -- a repeated label counts one really-deblending task '
+        'per entry. '
         '(C) refinement: full Cartesian product frame x numbering x variant x '
         'labels-argument (None, every scalar, every pair in BOTH orders, full lists of >= 3 parents in all 3! orders '
         'or ascending/descending/rotated) x nlevels x contrast x mode x connectivity x relabel x npixels, plus a reduced '
         'sub-product over the Python representation of labels= (numpy scalar, 1-element list, tuple, int64 and int32 '
-        'array); frames = every single parent '
+        'array) and a DEGENERATE sub-product: the empty subset as [] (thorough: in the full parameter product; quick: '
+        'contrast x relabel x npixels) and as () / empty int64 / empty int32 array / empty boolean-mask selection from '
+        'segment_img.labels, all labels as computed selection and as the cached segment_img.labels object, and lists with a '
+        'repeated label ([a, a] for every label, [l0, l1, l0] as list and int64 array; judged for the subset the list denotes, a '
+        'tree that rejects them is skipped), for every frame x numbering x variant; an empty-selection case counts as '
+        'non-trivial when contrast < 1 and the image holds a segment of >= 2*npixels pixels (something a non-empty selection '
+        'could split: counter cases_labels_empty_with_a_deblending_candidate_in_the_image); frames = every single parent '
         'type, ALL ordered pairs (thorough: also all ordered triples) over the core alphabet {single, 2-blend, 3-blend, '
         '2-blend with a sub-npixels spike that leaves a hole in its marker numbers}, every group tile (two 2-blends whose '
         'minimal bounding boxes are NOT disjoint: X2 mutually interlocking, L2 nested, A2 sharing a border) alone and '
@@ -100,13 +116,20 @@ ASSUMPTIONS = ['the parent process observes the pool only through the order in w
                'separating level is checked by selftest/test_c06_schedules.py with a plain flood fill (not observed at '
                'run time); several spikes per parent at designed places, and spikes on 3-blends other than "first", are '
                'not enumerated',
-               'labels= lists are duplicate-free: the property quantifies over label SUBSETS and the documentation ("the '
-               'label numbers to deblend") defines no multiplicity, so what a repeated label should do (the pinned serial '
-               'path deblends the parent twice and burns a block of child numbers) is not stated and is not judged; the '
-               'ORDER of the list is part of the enumerated space (all orders of 2- and 3-label lists, ascending / '
-               'descending / rotated for longer ones) and the Python representation (int, numpy integer, list, tuple, '
-               'int64 / int32 ndarray) too; that the caller\'s labels ndarray is not modified is not stated by the property '
-               'and not checked (a labels list is)']
+               'labels=: the property quantifies over label SUBSETS and the documentation ("the label numbers to deblend") '
+               'defines no multiplicity.  The ordered-list alphabet is duplicate-free; lists with a repeated label are '
+               'enumerated in the degenerate sub-product only ([a, a] for every label, [l0, l1, l0]) and judged ONLY for what '
+               'the property says about the subset set(list): which child numbers come out (the pinned serial path deblends '
+               'the parent twice and burns a block of child numbers) is not judged, an exception on such a list is recorded as '
+               'skipped, and serial vs pool must still agree when serial returns.  The ORDER of the list is part of the '
+               'enumerated space (all orders of 2- and 3-label lists, ascending / descending / rotated for longer ones) and '
+               'the Python representation (int, numpy integer, list, tuple, int64 / int32 ndarray, boolean-mask selection '
+               'from segment_img.labels, the cached segment_img.labels object) too.  The EMPTY subset is enumerated as [] / () / '
+               'empty int64 / empty int32 array / empty mask selection; an empty FLOAT array (what np.array([]) gives) and '
+               'empty arrays of other dtypes or of ndim != 1 are not enumerated (the documentation asks for label numbers, '
+               'i.e. integers; whether a float-typed empty array must be accepted is not stated).  That the caller\'s own '
+               'labels ndarray is not modified is not stated by the property and not checked (a labels list is; the cached '
+               'segment_img.labels object is, being part of the input image)']
 
 NLEVELS = (1, 4, 32)
 CONTRAST = (0.0, 0.001, 0.3, 1.0)
@@ -187,12 +210,17 @@ def refine_params(tier, frame):
     return list(itertools.product(NLEVELS, CONTRAST, MODES, CONN, RELABEL, NPIXELS))
 
 
-def labels_arg(labels, kind):
+def labels_arg(labels, kind, segm=None):
     """The object handed to ``labels=``.  ``labels`` is plain JSON data (None,
-    an int, or a list of ints in the CALLER'S order); ``kind`` is its Python
-    representation: None = as is (int / list), 'npint' numpy integer scalar,
-    'list1' one-element list, 'tuple', 'array' int64 ndarray, 'array32' int32
-    ndarray."""
+    an int, or a list of ints in the CALLER'S order, possibly EMPTY); ``kind``
+    is its Python representation: None = as is (int / list), 'npint' numpy
+    integer scalar, 'list1' one-element list, 'tuple', 'array' int64 ndarray,
+    'array32' int32 ndarray, and two forms computed from the input image
+    ``segm`` (ascending lists only): 'selection' = ``segm.labels[mask]`` with
+    the boolean mask that selects exactly ``labels`` (the all-False mask for
+    the empty list: what ``segm.labels[segm.areas > big]`` gives when no source
+    is that big), 'cached' = the ``segm.labels`` attribute object itself (only
+    for the list of all labels)."""
     if labels is None:
         return None
     if isinstance(labels, int):
@@ -205,6 +233,15 @@ def labels_arg(labels, kind):
         if kind == 'tuple':
             return (labels,)
         return labels
+    if kind in ('selection', 'cached'):
+        all_labels = segm.labels
+        if list(labels) != sorted(set(labels)) or not set(labels) <= {int(x) for x in all_labels}:
+            raise ModelMismatch(f'labels form {kind!r} needs an ascending duplicate-free list of input labels, got {labels}')
+        if kind == 'cached':
+            if len(labels) != len(all_labels):
+                raise ModelMismatch(f"labels form 'cached' is the list of ALL labels, got {labels}")
+            return all_labels
+        return all_labels[np.isin(all_labels, np.array(labels, dtype=np.int64))]
     if kind == 'tuple':
         return tuple(labels)
     if kind == 'array':
@@ -232,10 +269,14 @@ def subsets(labs, tier):
     pair in both orders, and for >= 3 parents the full list: ALL 3! orderings
     for frames of exactly 3 parents (except the 64 core triples of the thorough
     tier), otherwise ascending / descending / rotated (non-monotone).
-    A list with a REPEATED label is not a label subset (the property quantifies
-    over label subsets; the documentation defines no multiplicity): not enumerated."""
+    Thorough tier: also the EMPTY list (the empty subset).  Lists with a
+    REPEATED label and the other degenerate elements: degenerate_subsets()."""
     out = [(None, None)]
     ls = sorted(labs)
+    if tier != 'quick':
+        # the EMPTY subset (no label selected: nothing may change) in the full parameter product; the quick tier has it
+        # in the degenerate sub-space below (reduced, stated parameter product)
+        out.append(([], None))
     out += [(l, None) for l in ls]
     out += [([a, b], None) for a, b in itertools.combinations(ls, 2)]
     out += [([b, a], None) for a, b in itertools.combinations(ls, 2)]
@@ -268,6 +309,68 @@ def repr_subsets(labs):
     out = [(l, k) for l in ls for k in ('npint', 'list1', 'tuple', 'array', 'array32')]
     if len(ls) >= 2:
         out += [(q, k) for q in (ls, ls[::-1]) for k in ('tuple', 'array', 'array32')]
+    return out
+
+
+# degenerate elements of the labels= alphabet (the property quantifies over ALL label subsets, so the empty subset and
+# the full subset are members; how the caller spells them is not part of the property):
+#   empty      no label selected -> no segment may be split, the map is empty (relabel=True still renumbers 1..N);
+#              every container form: [] / () / empty int64 array / empty int32 array / an empty boolean-mask selection
+#              from segment_img.labels
+#   all        all labels as a computed selection segment_img.labels[all-True mask] and as the cached
+#              segment_img.labels attribute object itself (must not be modified: it is part of the input image)
+#   repeated   a list that names a label twice: [a, a] for every label a; [l0, l1, l0] (list and int64 array) for the two
+#              smallest labels.  The SUBSET such a list denotes is set(list): every clause of the property is judged for
+#              that subset (children partition the parent, other segments untouched, map matches the pixels, labels
+#              1..N, input unchanged); which child NUMBERS come out (the pinned tree deblends the parent twice and burns
+#              a block of numbers) is not judged, and a tree that rejects such a list with an exception is skipped.
+# parameter products (both tiers; stated in describe()):
+#   []  (list)            : contrast (all 4) x relabel x npixels at REPR_PARAMS; every frame x numbering x variant
+#                           (thorough: [] is in the FULL parameter product as well, see subsets())
+#   other empty forms     : REPR_CONTRAST x relabel x npixels at REPR_PARAMS; every frame x numbering x variant
+#   all / repeated        : REPR_CONTRAST x relabel x npixels at REPR_PARAMS; every frame without a group+other-tile mix x
+#                           numbering x variant (repeated) / variant 'pos' (all: representation only)
+EMPTY_FORMS = (None, 'tuple', 'array', 'array32', 'selection')
+
+
+def _repeated(labels):
+    """Named predicate on the case: labels= is a list that names a label more than once."""
+    return isinstance(labels, list) and len(set(labels)) != len(labels)
+
+
+def _empty(labels):
+    """Named predicate on the case: labels= is an empty list (in whatever container form)."""
+    return isinstance(labels, list) and len(labels) == 0
+
+
+def _degenerate_tag(labels):
+    return ':labels-empty' if _empty(labels) else ':repeated-label' if _repeated(labels) else ''
+
+
+def degenerate_subsets(labs):
+    """-> {'empty': [...], 'all': [...], 'repeated': [...]} of (labels, kind)."""
+    ls = sorted(labs)
+    rep = [([a, a], None) for a in ls]
+    if len(ls) >= 2:
+        rep += [([ls[0], ls[1], ls[0]], None), ([ls[0], ls[1], ls[0]], 'array')]
+    return {'empty': [([], k) for k in EMPTY_FORMS],
+            'all': [(ls, 'selection'), (ls, 'cached')],
+            'repeated': rep}
+
+
+def degenerate_cases(frame, variant, labs):
+    """-> list of ((labels, kind), (nlevels, contrast, mode, connectivity, relabel, npixels)) of the degenerate sub-space."""
+    d = degenerate_subsets(labs)
+    out = []
+    for (nl, mode, conn) in REPR_PARAMS:
+        for sub in d['empty']:
+            for ct in (CONTRAST if sub[1] is None else REPR_CONTRAST):
+                out += [(sub, (nl, ct, mode, conn, rl, npx)) for rl in RELABEL for npx in NPIXELS]
+        if is_group_mix(frame):
+            continue
+        subs = d['repeated'] + (d['all'] if variant == 'pos' else [])
+        for sub in subs:
+            out += [(sub, (nl, ct, mode, conn, rl, npx)) for ct in REPR_CONTRAST for rl in RELABEL for npx in NPIXELS]
     return out
 
 
@@ -314,7 +417,28 @@ def _sched_params_for(scene, tier):
     return ps[:2] if S.nparents(SCHED_SCENES[scene][0]) >= 5 else ps
 
 
-def sched_subsets(labs, tier='thorough'):
+def sched_degenerate(labs, tier='thorough'):
+    """Degenerate elements of the labels= alphabet in the schedule product,
+    (labels, kind) pairs; ``labs`` in raster (tile) order, first / last = the
+    label of the first / last parent in raster order.
+
+      empty    : [] and the empty int64 array (no task is submitted: the pool path runs with 0 futures);
+                 thorough: also () / empty int32 array / empty boolean-mask selection;
+      single   : the first label as a 1-element list (thorough: the last as a 1-element int64 array);
+      all      : thorough: the cached segment_img.labels attribute object itself;
+      repeated : [first, first] (TWO tasks for one parent; judged for the subset {first}, see degenerate_subsets());
+                 thorough: [last, last] as int64 array and, >= 2 parents, [first, second, first] (three tasks)."""
+    first, last = labs[0], labs[-1]
+    out = [([], None), ([], 'array'), (first, 'list1'), ([first, first], None)]
+    if tier == 'thorough':
+        out += [([], 'tuple'), ([], 'array32'), ([], 'selection'), (last, 'array'), (sorted(labs), 'cached'),
+                ([last, last], 'array')]
+        if len(labs) >= 2:
+            out.append(([first, labs[1], first], None))
+    return out
+
+
+def sched_subsets(labs, tier='thorough', degenerate=True):
     """labels= alphabet of the schedule product, (labels, kind) pairs in the
     CALLER'S order; ``labs`` are the labels in raster (tile) order.  The number
     of elements depends only on len(labs).
@@ -327,7 +451,8 @@ def sched_subsets(labs, tier='thorough'):
                   a rotated (neither ascending nor descending) list as int64 array:
                   of all labels for 3 parents, of all but the first parent for >= 4;
       every single label as a scalar int (one task at most).
-    Lists with a repeated label are not enumerated: see subsets()."""
+    Followed by the degenerate elements (empty / single-as-container / repeated):
+    sched_degenerate()."""
     out = [(None, None)]
     ls = sorted(labs)
     if len(ls) == 2:
@@ -338,7 +463,8 @@ def sched_subsets(labs, tier='thorough'):
         out.append((rotated(ls if len(ls) == 3 else rest), 'array'))
         out.append((ls[::-1] if tier == 'thorough' or len(ls) == 3 else sorted(labs[:-1], reverse=True), None))
     out += [(l, None) for l in ls]
-    return out
+    # appended last: the indices of the elements above do not move
+    return out + (sched_degenerate(labs, tier) if degenerate else [])
 
 
 # label-array dtype sub-space: SegmentationImage accepts every integer dtype; child labels are numbered above the
@@ -398,7 +524,7 @@ def _call(deblend_sources, SegmentationImage, data, seg, p, nproc, quantity=Fals
         d = data * u.Jy
     d0 = np.array(data, copy=True)
     labels = p['labels']
-    lab_arg = labels_arg(labels, p.get('labels_kind'))
+    lab_arg = labels_arg(labels, p.get('labels_kind'), segm)
     res = {'exc': None, 'out': None, 'warnings': [], 'input_bad': None}
     with warnings.catch_warnings(record=True) as w:
         warnings.simplefilter('always')
@@ -507,9 +633,16 @@ def _geometry_counters(acc, prefix, frame, seg, labels, info):
 def _check_refinement(acc, case, seg, p, res, frame, tag=''):
     """Apply the set-partition oracle to one executed call.  -> info or None."""
     conn = p['connectivity']
+    # named predicates on the case: a defect that needs a degenerate labels= argument gets its own key
+    tag += _degenerate_tag(p['labels'])
     if res['exc'] is not None:
         e = res['exc']
         req = _requested(seg, p['labels'])
+        if _repeated(p['labels']):
+            # the property quantifies over label SUBSETS and the documentation defines no multiplicity: a tree that
+            # rejects a list with a repeated label is not judged (whatever it raises)
+            acc.skip(f'labels list with a repeated label rejected ({type(e).__name__}): multiplicity is not defined by the property')
+            return None
         bad_conn = [l for l in sorted(req) if not S.connected(seg == l, conn)]
         if isinstance(e, ValueError) and 'connectivity' in str(e) and bad_conn and p['contrast'] < 1:
             acc.skip('parent not connected under the requested connectivity (documented ValueError)')
@@ -549,7 +682,11 @@ def _refine_case(acc, frame, numb, variant, p, seed, built=None):
     res = _call(deblend_sources, SegmentationImage, data, seg, p, 1, quantity=(variant == 'quantity'))
     info = _check_refinement(acc, case, seg, p, res, frame)
     nsplit = len(info['deblended']) if info else 0
-    acc.case(nontrivial=nsplit > 0, sample=case if acc.evaluations % 4999 == 11 else None)
+    # an EMPTY selection must split nothing: it is a test when a non-empty selection could have split something,
+    # measured on the input: contrast < 1 and the image has a segment of >= 2*npixels pixels (a deblending candidate)
+    empty_test = (_empty(p['labels']) and p['contrast'] < 1
+                  and any(np.count_nonzero(seg == l) >= 2 * p['npixels'] for l in labs))
+    acc.case(nontrivial=nsplit > 0 or empty_test, sample=case if acc.evaluations % 4999 == 11 else None)
     if info is not None:
         acc.outcome((tuple(info['children']), p['relabel'], len(labs)))
         acc.counters['parents_split'] += nsplit
@@ -561,6 +698,16 @@ def _refine_case(acc, frame, numb, variant, p, seed, built=None):
             acc.counters['cases_non_ascending_labels_with_two_parents_split'] += 1
         if p.get('labels_kind'):
             acc.counters['cases_labels_representation_' + p['labels_kind']] += 1
+        # vacuity guards of the degenerate labels= elements; a repeated label is only a test when the repeated parent
+        # is split
+        if _empty(p['labels']):
+            acc.counters['cases_labels_empty'] += 1
+            if empty_test:
+                acc.counters['cases_labels_empty_with_a_deblending_candidate_in_the_image'] += 1
+        if _repeated(p['labels']):
+            acc.counters['cases_labels_repeated'] += 1
+            if {l for l in p['labels'] if p['labels'].count(l) > 1} & set(info['deblended']):
+                acc.counters['cases_labels_repeated_and_the_repeated_parent_is_split'] += 1
         # vacuity guard of the spike sub-space: a parent whose marker numbers have a hole (npixels > spike size) is
         # split in the same call as at least one other parent (child numbers of different parents must not collide)
         if nsplit >= 2 and p['npixels'] > 1:
@@ -579,6 +726,11 @@ def _run_refine(acc, unit, tier, seed):
             p = {'labels': sub, 'labels_kind': kind, 'nlevels': nl, 'contrast': ct, 'mode': mode, 'connectivity': conn,
                  'relabel': rl, 'npixels': npx}
             _refine_case(acc, frame, numb, variant, p, seed, built)
+    # degenerate elements of the labels= alphabet: empty (every container form), all labels (computed forms), repeated
+    for (sub, kind), (nl, ct, mode, conn, rl, npx) in degenerate_cases(frame, variant, labs):
+        p = {'labels': sub, 'labels_kind': kind, 'nlevels': nl, 'contrast': ct, 'mode': mode, 'connectivity': conn,
+             'relabel': rl, 'npixels': npx}
+        _refine_case(acc, frame, numb, variant, p, seed, built)
     # representation sub-space of labels= (reduced parameter product; consumed before any per-source work: not crossed
     # with the group + other-tile frames)
     if variant == 'pos' and not is_group_mix(frame):
@@ -616,6 +768,9 @@ def _sched_config(acc, scene, numb, variant, p, nprocs, seed, only_perm=None):
     ref = _snapshot(ser['out'])
     ref['warnings'] = ser['warnings']
     nsplit = len(info['deblended']) if info else 0
+    # tasks that really deblend their parent (a list with a repeated label submits one task per ENTRY)
+    ntasks_split = nsplit if not isinstance(p['labels'], list) else sum(1 for l in p['labels'] if info and l in info['deblended'])
+    rep_split = bool(info) and _repeated(p['labels']) and bool({l for l in p['labels'] if p['labels'].count(l) > 1} & set(info['deblended']))
     cfgkey = _sched_config_key(base)
     for nproc in nprocs:
         n, s0, r0 = _probe_tasks(D, SegmentationImage, deblend_sources, data, seg, p, nproc)
@@ -637,7 +792,15 @@ def _sched_config(acc, scene, numb, variant, p, nprocs, seed, only_perm=None):
                 acc.state_keys = set()
             for st in s.states:
                 acc.state_keys.add(hash((cfgkey, nproc, st)))
-            nontriv = perm != tuple(range(n)) and nsplit >= 2
+            nontriv = perm != tuple(range(n)) and ntasks_split >= 2
+            if _empty(p['labels']):
+                acc.counters['schedules_labels_empty'] += 1
+                if n != 0:
+                    acc.counters['schedules_labels_empty_but_tasks_submitted'] += 1
+            if rep_split:
+                acc.counters['schedules_labels_repeated_and_the_repeated_parent_is_split'] += 1
+            if p.get('labels_kind'):
+                acc.counters['schedules_labels_representation_' + p['labels_kind']] += 1
             if nsplit >= 2 and _unsorted(p['labels']):
                 acc.counters['schedules_non_ascending_labels_with_two_parents_split'] += 1
             _geometry_counters(acc, 'schedules', frame, seg, p['labels'], info)
@@ -650,7 +813,7 @@ def _sched_config(acc, scene, numb, variant, p, nprocs, seed, only_perm=None):
             if s.events and (not s.exited or sorted(s.consumed) != list(range(n))):
                 acc.counters['results_not_all_consumed'] += 1
             if res['exc'] is not None:
-                acc.violation('schedule-raises', type(res['exc']).__name__, case,
+                acc.violation('schedule-raises', type(res['exc']).__name__ + _degenerate_tag(p['labels']), case,
                               f'{type(res["exc"]).__name__}: {res["exc"]}', 'same result as nproc=1')
                 continue
             if res['input_bad']:
@@ -664,7 +827,8 @@ def _sched_config(acc, scene, numb, variant, p, nprocs, seed, only_perm=None):
                 ident = perm == tuple(range(n))
                 obs = _describe(res['out'], res['warnings'], k, ser['out'])
                 exp = _describe(ser['out'], ser['warnings'], k, res['out'])
-                site = f'{k}:{"submission-order" if ident else "permuted"}' + (':labels-not-ascending' if _unsorted(p['labels']) else '')
+                site = (f'{k}:{"submission-order" if ident else "permuted"}' + (':labels-not-ascending' if _unsorted(p['labels']) else '')
+                        + _degenerate_tag(p['labels']))
                 acc.violation('schedule-dependence', site, case, obs, exp,
                               f'result with nproc={nproc} and completion order {list(perm)} differs from nproc=1 in {k}')
 
@@ -705,7 +869,7 @@ def _sched_configs(scene, tier):
     for (nl, mode, conn) in _sched_params_for(scene, tier):
         for ct in SCHED_CONTRAST:
             for rl in RELABEL:
-                for si in range(len(sched_subsets(labs0))):
+                for si in range(len(sched_subsets(labs0, tier))):
                     yield {'nlevels': nl, 'mode': mode, 'connectivity': conn, 'contrast': ct, 'relabel': rl,
                            'npixels': npx, 'subset_index': si}
 
@@ -822,10 +986,11 @@ def _run_real(acc, unit, tier, seed):
     D, SegmentationImage, deblend_sources = _api()
     scene, nproc = unit['scene'], unit['nproc']
     frame, npx = SCHED_SCENES[scene]
-    for numb, rl, lab_order in (('gaps', False, None), ('reversed', True, 'descending')):
+    for numb, rl, lab_order in (('gaps', False, None), ('reversed', True, 'descending'), ('consec', False, 'empty')):
         data, seg, labs = S.build(frame, numb, 'mixed', seed)
-        # second run: the caller lists the labels in descending order (int64 array)
-        sub, kind = (None, None) if lab_order is None else (sorted(labs, reverse=True), 'array')
+        # second run: the caller lists the labels in descending order (int64 array); third run: an EMPTY int64 array
+        # (the real executor is created and closed without a single submit)
+        sub, kind = {None: (None, None), 'descending': (sorted(labs, reverse=True), 'array'), 'empty': ([], 'array')}[lab_order]
         p = {'labels': sub, 'labels_kind': kind, 'nlevels': 8, 'contrast': 0.001, 'mode': 'exponential', 'connectivity': 8,
              'relabel': rl, 'npixels': npx}
         case = {'part': 'realpool', 'scene': scene, 'frame': list(frame), 'numbering': numb, 'variant': 'mixed',
@@ -841,7 +1006,11 @@ def _run_real(acc, unit, tier, seed):
             _call(deblend_sources, SegmentationImage, data, seg, p, nproc)
         with free_running(D) as s_real:
             res = _call(deblend_sources, SegmentationImage, data, seg, p, nproc)
-        acc.case(nontrivial=True, sample=case if scene == 's2a' else None)
+        acc.case(nontrivial=lab_order != 'empty', sample=case if scene == 's2a' else None)
+        if lab_order == 'empty':
+            acc.counters['real_pool_runs_with_empty_labels'] += 1
+            # the serial result of an empty selection is judged by the refinement oracle like every other case
+            _check_refinement(acc, dict(case, nproc=1), seg, p, ser, frame)
         acc.counters['real_pool_runs'] += 1
         acc.counters['real_pool_tasks'] += len(s_real.futures)
         if list(s_real.completion) != sorted(s_real.completion):
@@ -996,7 +1165,8 @@ def describe(tier, seed):
             'refine_frames': [list(f) for f in frames],
             'numbering': list(refine_numberings(tier)),
             'variant': 'pos, nonpos' + ('' if tier == 'quick' else ', quantity (frames of <= 2 parents); pos only for the 64 core triples and the 5-parent frames'),
-            'labels_argument': 'ordered, in the caller\'s order: None; each single label (scalar int); every pair in both '
+            'labels_argument': 'ordered, in the caller\'s order: None; ' + ('' if tier == 'quick' else 'the EMPTY list []; ')
+                               + 'each single label (scalar int); every pair in both '
                                'orders; >= 3 parents: the full list in all 3! orders (3-parent frames'
                                + (' other than the 64 core triples' if tier == 'thorough' else '') + '), otherwise '
                                'ascending / descending / rotated (sorted list rotated by one: non-monotone); no repeated labels',
@@ -1006,6 +1176,29 @@ def describe(tier, seed):
                 'crossed_with': {'frame': 'all', 'numbering': 'all', 'variant': ['pos'], 'relabel': list(RELABEL),
                                  'npixels': list(NPIXELS), '(nlevels, mode, connectivity)': [list(x) for x in REPR_PARAMS],
                                  'contrast': list(REPR_CONTRAST)}},
+            'labels_degenerate_subspace': {
+                'empty': {'forms': ['[]', '()', 'empty int64 array', 'empty int32 array',
+                                    'segment_img.labels[all-False boolean mask]'],
+                          'crossed_with': {'frame': 'all', 'numbering': 'all', 'variant': 'all',
+                                           '(nlevels, mode, connectivity)': [list(x) for x in REPR_PARAMS],
+                                           'contrast': {'[]': list(CONTRAST), 'other forms': list(REPR_CONTRAST)},
+                                           'relabel': list(RELABEL), 'npixels': list(NPIXELS)},
+                          'full_parameter_product': 'no (thorough tier)' if tier == 'quick' else
+                                                    '[] is an element of labels_argument: full parameter product'},
+                'all_labels': {'forms': ['segment_img.labels[all-True boolean mask]', 'the cached segment_img.labels object itself'],
+                               'crossed_with': {'frame': 'all without a group + other-tile mix', 'numbering': 'all',
+                                                'variant': ['pos'], '(nlevels, mode, connectivity)': [list(x) for x in REPR_PARAMS],
+                                                'contrast': list(REPR_CONTRAST), 'relabel': list(RELABEL),
+                                                'npixels': list(NPIXELS)}},
+                'repeated_label': {'lists': '[a, a] for every label a (list); [l0, l1, l0] for the two smallest labels (list and '
+                                            'int64 array)',
+                                   'judged': 'every clause, for the subset set(list); child numbers not judged; an exception '
+                                             'on such a list -> skipped',
+                                   'crossed_with': {'frame': 'all without a group + other-tile mix', 'numbering': 'all',
+                                                    'variant': 'all', '(nlevels, mode, connectivity)': [list(x) for x in REPR_PARAMS],
+                                                    'contrast': list(REPR_CONTRAST), 'relabel': list(RELABEL),
+                                                    'npixels': list(NPIXELS)}},
+                'example_3_parents_consec': {k: [jsonable_sub(x) for x in v] for k, v in degenerate_subsets([1, 2, 3]).items()}},
             'nlevels': list(NLEVELS), 'contrast': list(CONTRAST), 'mode': list(MODES), 'connectivity': list(CONN),
             'relabel': list(RELABEL), 'npixels': list(NPIXELS),
             'label_dtype_subspace': {'frames': [list(f) for f in DTYPE_FRAMES], 'dtype': list(DTYPES),
@@ -1020,13 +1213,19 @@ def describe(tier, seed):
                                 'array of all labels (3 parents) or of all but the first parent (>= 4); descending list of '
                                 + ('all labels' if tier == 'thorough' else 'all labels (3 parents) or of all but the last parent (>= 4)')
                                 + '; each scalar',
+                'degenerate (every scene)': 'empty list and empty int64 array (0 tasks); the first label (raster order) as '
+                                            '1-element list; [first, first] (two tasks for one parent)'
+                                            + ('' if tier == 'quick' else '; () / empty int32 array / empty boolean-mask selection; '
+                                               'the last label as 1-element int64 array; the cached segment_img.labels object; '
+                                               '[last, last] as int64 array; [first, second, first]'),
                 'example_3_parents_consec': [jsonable_sub(x) for x in sched_subsets([1, 2, 3], tier)],
                 'example_4_parents_consec': [jsonable_sub(x) for x in sched_subsets([1, 2, 3, 4], tier)]},
             'completion_orders': 'all N! per (scene, numbering in consec/gaps/reversed, variant in pos/nonpos/mixed, relabel, '
                                  'contrast in 0.001/0.3, labels argument (see schedule_labels_argument), '
                                  f'(nlevels, mode, connectivity) in {sched_param_sets(tier)} (first two for N=5), nproc in {{2,3,N}})',
             'real_spawn_pool_runs': [list(x) for x in (REAL_QUICK if tier == 'quick' else REAL_THOROUGH)],
-            'real_spawn_pool_labels': 'each (scene, nproc) twice: numbering gaps / relabel False / labels None, and numbering '
-                                      'reversed / relabel True / labels = all labels descending as int64 array',
+            'real_spawn_pool_labels': 'each (scene, nproc) three times: numbering gaps / relabel False / labels None; numbering '
+                                      'reversed / relabel True / labels = all labels descending as int64 array; numbering '
+                                      'consec / relabel False / labels = empty int64 array (executor created, no submit)',
         },
     }
